@@ -5,9 +5,27 @@ set -e
 VERIF_DIR="$(cd "$(dirname "$0")" && pwd)"
 export VERIF_DIR
 export GOFLAGS=-mod=mod GOPROXY=off GOSUMDB=off GOTOOLCHAIN=local GOWORK=off
-if [ ! -x "$VERIF_DIR/bin/rdcheck" ] || [ -n "$(find "$VERIF_DIR/sa" -name '*.go' -newer "$VERIF_DIR/bin/rdcheck" 2>/dev/null | head -1)" ]; then
+stale() {
+  [ ! -x "$VERIF_DIR/bin/rdcheck" ] || [ -n "$(find "$VERIF_DIR/sa" -name '*.go' -newer "$VERIF_DIR/bin/rdcheck" 2>/dev/null | head -1)" ]
+}
+build() {
+  # built beside the target and moved into place, so that a check started at the same time never runs a half-written file
+  if stale; then
+    tmp="$VERIF_DIR/bin/rdcheck.$$"
+    (cd "$VERIF_DIR/sa" && go build -o "$tmp" .) >&2
+    mv -f "$tmp" "$VERIF_DIR/bin/rdcheck"
+  fi
+}
+if stale; then
   mkdir -p "$VERIF_DIR/bin"
-  (cd "$VERIF_DIR/sa" && go build -o "$VERIF_DIR/bin/rdcheck" .) >&2
+  if command -v flock >/dev/null 2>&1; then
+    exec 9>"$VERIF_DIR/bin/.build.lock"
+    flock 9
+    build
+    exec 9>&-
+  else
+    build
+  fi
 fi
 cmd="$1"; shift
 case "$cmd" in
